@@ -941,6 +941,49 @@ GROUPS.append(("FnsConstr2.lean", ["Sds.Model.BitVector", "Sds.Model.Sparse", "S
 ]))
 
 
+# ---- constructions, part 3: RawVector::{new, with_len}, BitVector::from(RawVector), the sparse builder's constructors
+# (`get_params` with its floating-point width rule replaced by the NAMED parameter `fw`: the model is parametric in the
+# low width too) and `SparseVector::try_from(builder)`.  The builder is the Rust layout `SparseBuilderR` (Model/GenStructs.lean:
+# `data : Sparse`, `high : RawVec`, counters), related to the model's flat builder by `SparseBuilderR.toModel`.
+SPBR = ("N", "SparseBuilder")
+SPBR_STRUCT = dict(lean="SparseBuilderR", ctor=lambda v: "(⟨%s, %s, %s, %s, %s⟩ : SparseBuilderR)" % (v["data"], v["high"], v["len"], v["next"], v["increment"]),
+                   fields={"data": ("N", "SparseVector"), "high": RV, "len": U, "next": U, "increment": U}, fieldmap={})
+CONSTR3_CALLS = {
+    "RawVector::default": dict(lean="RawVec.empty", ret=RV, monadic=False),
+    "RawVector::new": dict(lean="gen_RawVector_new m", ret=RV),
+    "RawVector::with_len": dict(lean="gen_RawVector_with_len m {0} {1}", ret=RV, args=[U, B]),
+    "bits::filler_value": dict(lean="gen_filler_value m {0}", ret=W, args=[B]),
+    "bits::bits_to_words": dict(lean="gen_bits_to_words m {0}", ret=U, args=[U]),
+    "<RawVector>.set_unused_bits": dict(lean="gen_RawVector_set_unused_bits m {0} {1}", ret=UNIT, mutrecv=True, monadic=True, args=[B]),
+    "<RawVector>.count_ones": dict(lean="gen_RawVector_count_ones m {0}", ret=U),
+    "BitVector::from": dict(lean="gen_BitVector_from_raw m {0}", ret=BV, args=[RV]),
+    "Self::get_params": dict(lean="gen_SparseBuilder_get_params m fw {0} {1}", ret=("T", [U, U]), args=[U, U]),
+    "Self::get_buckets": dict(lean="gen_SparseBuilder_get_buckets m {0} {1}", ret=U, args=[U, U]),
+    "IntVector::with_len": dict(lean="gen_IntVector_with_len m {0} {1} {2}", ret=IV, result=True, args=[U, U, W]),
+    "<SparseBuilder>.is_full": dict(lean="gen_SparseBuilder_is_full m {0}.toModel", ret=B),
+    "<BitVector>.enable_select": dict(lean="gen_BitVector_enable_select m {0}", ret=UNIT, mutrecv=True, monadic=True),
+    "<BitVector>.enable_select_zero": dict(lean="gen_BitVector_enable_select_zero m {0}", ret=UNIT, mutrecv=True, monadic=True),
+}
+GROUPS.append(("FnsConstr3.lean", ["Sds.Model.GenStructs", "Sds.Generated.FnsVec", "Sds.Generated.FnsVec2", "Sds.Generated.FnsView", "Sds.Generated.FnsIdx",
+                                   "Sds.Generated.FnsBuild", "Sds.Generated.FnsEnable"], [
+    dict(file="raw_vector.rs", impl=r"impl RawVector\b", fn="new", name="gen_RawVector_new", calls=CONSTR3_CALLS),
+    dict(file="raw_vector.rs", impl=r"impl RawVector\b", fn="with_len", name="gen_RawVector_with_len", calls=CONSTR3_CALLS),
+    dict(file="bit_vector.rs", impl=r"impl From<RawVector> for BitVector\b", fn="from", name="gen_BitVector_from_raw", calls=CONSTR3_CALLS,
+         tyalias={"Self": BV}),
+    dict(file="sparse_vector.rs", impl=r"impl SparseBuilder\b", fn="get_params", name="gen_SparseBuilder_get_params", calls=CONSTR3_CALLS,
+         binders=["(fw : Nat)"],
+         source_subst=[(r"let\s+ideal_width\s*=\s*\(\(universe as f64 \* 2\.0_f64\.ln\(\)\) / \(ones as f64\)\)\.log2\(\);\s*low_width\s*=\s*ideal_width\.max\(1\.0\)\.round\(\) as usize;",
+                        "low_width = fw;")],
+         params_extra={"fw": ("fw", U)}),
+    dict(file="sparse_vector.rs", impl=r"impl SparseBuilder\b", fn="new", name="gen_SparseBuilder_new", calls=CONSTR3_CALLS,
+         binders=["(fw : Nat)"], structs_over={"SparseBuilder": SPBR_STRUCT}, ret=SPBR),
+    dict(file="sparse_vector.rs", impl=r"impl SparseBuilder\b", fn="multiset", name="gen_SparseBuilder_multiset", calls=CONSTR3_CALLS,
+         binders=["(fw : Nat)"], structs_over={"SparseBuilder": SPBR_STRUCT}, ret=SPBR),
+    dict(file="sparse_vector.rs", impl=r"impl TryFrom<SparseBuilder> for SparseVector\b", fn="try_from", name="gen_SparseVector_try_from", calls=CONSTR3_CALLS,
+         structs_over={"SparseBuilder": SPBR_STRUCT}, tyalias={"Self": ("N", "SparseVector")}, ret=("N", "SparseVector")),
+]))
+
+
 def generate_fn_files(read, consts_by_file):
     """read(rel) -> source text; consts_by_file: {rel: {NAME: int}} (module / associated constants visible in that file)"""
     files = {}
